@@ -59,6 +59,7 @@ type loopInfo struct {
 	measure    []T
 	phiSyms    map[*ssa.Phi]T
 	allocAtHdr T
+	heldEntry  T // set of held mutexes when the loop was entered (loops are lock-balanced per iteration: checked)
 }
 
 type retRec struct {
@@ -66,6 +67,7 @@ type retRec struct {
 	st      State
 	results []T
 	pos     token.Pos
+	vals    []ssa.Value // the returned SSA values (for path splitting of postcondition sub-goals)
 }
 
 type Frame struct {
@@ -820,6 +822,13 @@ func (f *Frame) loopHeader(li *loopInfo, preds []*ssa.BasicBlock) {
 			f.enc.addFact(nv.S, fmt.Sprintf("(assert (forall ((r!f Int)) (! (=> (<= r!f %s) (= (select %s r!f) (select %s r!f))) :pattern ((select %s r!f)))))", allocEntry.S, nv.S, old.S, nv.S))
 		}
 	}
+	if _, ok := li.mods["held"]; ok {
+		if hv, ok := f.st["held"]; ok {
+			// automatic (checked on every back edge) invariant: every iteration releases what it acquires
+			li.heldEntry = stLookup(f.enc, pre, "held")
+			f.assume(Eq(hv, li.heldEntry))
+		}
+	}
 	li.stAtHeader = f.st.clone()
 	li.allocAtHdr = f.alloc()
 	for phi, sym := range li.phiSyms {
@@ -902,6 +911,10 @@ func (f *Frame) backEdge(from, h *ssa.BasicBlock, ep T) {
 		c := tr.boolExpr(inv.Expr)
 		o := f.obligeNamed("inv", fmt.Sprintf("loop%d.%s@back.%s", li.ordinal, clauseName(inv, k), tag), token.NoPos, c, inv.Props)
 		f.addUses(o, li.spec.Uses, tr)
+		f.unassumeLast()
+	}
+	if li.heldEntry.S != "" {
+		f.obligeNamed("inv", fmt.Sprintf("loop%d.auto-locks-balanced@back.%s", li.ordinal, tag), token.NoPos, Eq(stLookup(f.enc, f.st, "held"), li.heldEntry), nil)
 		f.unassumeLast()
 	}
 	for k, pc := range li.spec.Preserves {
@@ -999,6 +1012,20 @@ func (f *Frame) collectNames() {
 		idx   int
 	}
 	exprVal := map[ast.Expr]where{}
+	// key / value variables of range statements: their defining debug reference carries the element just read
+	rangeVars := map[*ast.Ident]bool{}
+	if syn := f.fn.Syntax(); syn != nil {
+		ast.Inspect(syn, func(n ast.Node) bool {
+			if rs, ok := n.(*ast.RangeStmt); ok && rs.Tok == token.DEFINE {
+				for _, e := range []ast.Expr{rs.Key, rs.Value} {
+					if id, ok := e.(*ast.Ident); ok {
+						rangeVars[id] = true
+					}
+				}
+			}
+			return true
+		})
+	}
 	for _, b := range f.fn.Blocks {
 		for i, in := range b.Instrs {
 			if d, ok := in.(*ssa.DebugRef); ok {
@@ -1008,7 +1035,7 @@ func (f *Frame) collectNames() {
 				if id, ok := d.Expr.(*ast.Ident); ok {
 					// a defining occurrence records the value BEFORE the definition: not usable
 					if info != nil {
-						if _, isDef := info.Defs[id]; isDef && !d.IsAddr {
+						if _, isDef := info.Defs[id]; isDef && !d.IsAddr && !rangeVars[id] {
 							continue
 						}
 					}
